@@ -51,8 +51,48 @@ def ok_value(fn, ev, b, variant="Ok", adt="Result"):
     return (ev.exit_state.get(b) or {}).get(0)
 
 
+_ERR_PRESERVING = ("map", "and_then", "branch", "from_residual", "map_err", "or_else", "inspect", "inspect_err")
+
+
+def err_aliases(fn):
+    """Locals whose Err-ness reaches the return place: moved into it, or handed to a combinator that passes an Err on
+    (`x.map(f)`, `x.and_then(f)`, `x?`).  An `Err(..)` built in such a local is an error exit of the function (e.g. in
+    the body of a spliced helper whose result is `.map(Self)`ed)."""
+    al = set(return_aliases(fn))
+    changed = True
+    while changed:
+        changed = False
+        for b in fn.cfg.reachable:
+            blk = fn.blocks[b]
+            for s in blk["stmts"]:
+                if s["k"] == "assign" and s["place"].get("l") in al and "p" not in s["place"] and "use" in s["rv"]:
+                    op = s["rv"]["use"]
+                    pl = op.get("move") or op.get("copy")
+                    if pl and pl["l"] not in al:
+                        al.add(pl["l"])
+                        changed = True
+            t = blk["term"]
+            if t["k"] == "call" and (t.get("dest") or {}).get("l") in al and "p" not in (t.get("dest") or {"p": 1}):
+                c = t.get("callee") or {}
+                if c.get("name") in _ERR_PRESERVING and c.get("path", "").split("::")[0] in ("core", "std", "alloc") and t.get("args"):
+                    a0 = t["args"][0]
+                    pl = a0.get("move") or a0.get("copy") if isinstance(a0, dict) else None
+                    if pl and pl["l"] not in al:
+                        al.add(pl["l"])
+                        changed = True
+    return al
+
+
 def err_blocks(fn):
-    return ok_blocks(fn, "Err")
+    out = []
+    al = err_aliases(fn)
+    for b in sorted(fn.cfg.reachable):
+        for s in fn.blocks[b]["stmts"]:
+            if s["k"] == "assign" and s["place"].get("l") in al and "p" not in s["place"]:
+                agg = s["rv"].get("agg")
+                if agg and agg.get("adt") == "Result" and agg.get("variant") == "Err":
+                    out.append(b)
+    return out
 
 
 def subst_literals(lits, mapping, P=None):
